@@ -365,6 +365,16 @@ func (vm *VisitorModel) alwaysAddsError(fn *types.Func, depth int) bool {
 
 func (vm *VisitorModel) nonNilError(e ast.Expr) bool {
 	e = ast.Unparen(e)
+	// a value of a struct (or other non-pointer, non-interface) type is never a nil error once it is converted to the
+	// interface — whatever expression produced it (a literal, a helper that returns the struct)
+	if tv, ok := vm.pkg.TypesInfo.Types[e]; ok && tv.Type != nil && !tv.IsNil() {
+		switch tv.Type.Underlying().(type) {
+		case *types.Struct, *types.Basic, *types.Array:
+			if _, isNamed := tv.Type.(*types.Named); isNamed {
+				return true
+			}
+		}
+	}
 	switch x := e.(type) {
 	case *ast.CompositeLit:
 		return true
